@@ -23,7 +23,8 @@ RULE = ("random pipelines: series of 2..60 points x x class x y class x strategy
         "pipelines: 19 bundled datasets x 6 strategies x n set x 2 rules. non-trivial: matching had to move at least "
         "one interval mean by more than 1e-6 of its scale (or the strategy is piecewise constant, whose rectangle "
         "means are already right); distinct by (case index | dataset, strategy, n, rule)."
-        " The factor n is also given as numpy.int64, the default strategy class by omission.")
+        " The factor n is also given as numpy.int64, the default strategy class by omission."
+        " Round-4 classes: bursts and mixed step sizes as in C01 with the same local tolerance, series of 1001..1800 averages, the factor as NumPy integer scalar of any width (signed / unsigned), integral_match called positionally.")
 REQUIRED_MONITORS = ["c02:interval_means", "c02:block_average"]
 ASSUMPTIONS = ["x strictly increasing; parameters in documented ranges; reference rule = rectangle"]
 NSHARDS = 16
